@@ -313,6 +313,10 @@ func c05SynthWitnesses() []c05Witness {
 		} {
 			ws = append(ws, c05Witness{"synth:calcchain-edit-" + strconv.Itoa(i), append([]string{open, "h.save"}, edits...)})
 		}
+		// the cell setters on chained cells: empty formula, new formula, value; canonical and lower-case spelling
+		ws = append(ws, c05Witness{"synth:calcchain-setters", []string{open, "h.setformula " + s1 + " D2 - 0 -", "h.setformula " + s1 + " C5 " + hx("A1*2") + " 0 -",
+			"h.setval " + s1 + " B4 1 3", "h.setrich " + s2 + " C1 " + hx("r"), "h.save", "h.reopen", "h.setformula " + s2 + " C8 - 0 -", "h.setformula " + s1 + " A1 " + hx("D6+1") + " 0 -", "h.save"}})
+		ws = append(ws, c05Witness{"synth:calcchain-setters-lowercase", []string{open, "h.setformula " + s1 + " d3 - 0 -", "h.setval " + s1 + " d6 1 3", "h.save"}})
 		// every chained formula overwritten: the chain part goes away
 		emptied := []string{open, "h.setval " + s1 + " D6 1 1"}
 		for _, fc := range c05SynthFormulaCells {
